@@ -507,6 +507,35 @@ func parserCases(c *mon.Ctx, idx int64, r *rand.Rand, s *gen.Stream, m *gen.Mode
 		c.Violate("C19/parser/group-count", "streams", idx, fmt.Sprintf("%d groups for %d units", len(groups), len(s.Units)), data)
 	}
 	c.Add("parser_groups_observed", int64(len(groups)))
+	// an observer that returns data of its own together with skip=false: "skip=false leaves the default output unchanged", whatever
+	// else the parser returns. The stream gets two more units the default parser makes nothing of (a conditional access table on
+	// PID 1 and a private payload on a PID nobody announced), so that there are units without default output too
+	{
+		ext := append([]byte{}, s.Bytes...)
+		for k, pid := range []uint16{1, 0x1abd} {
+			p := gen.BuildPacket(pid, uint8(k+3), true, append([]byte{0, 0x80 + byte(k)}, gen.Bytes(r, 20+r.IntN(150))...), nil, true)
+			b, _ := refts.EncodePacket(p, nil)
+			ext = append(ext, b...)
+		}
+		base2 := RunDemux(ext, baseCfg("data"))
+		cfg2 := baseCfg("data")
+		calls := 0
+		cfg2.Parser = func(ps []*astits.Packet) ([]*astits.DemuxerData, bool, error) {
+			calls++
+			return []*astits.DemuxerData{{PID: 0x1abc}}, false, nil
+		}
+		run2 := RunDemux(ext, cfg2)
+		if run2.Panic != "" {
+			c.Violate("C19/parser/panic", "streams", idx, run2.Panic, data)
+			return
+		}
+		if base2.Panic == "" {
+			if d := itemsEqual(run2.Items, base2.Items); d != "" {
+				c.Violate("C19/parser/skip-false-with-data-changes-output", "streams", idx, d, data)
+			}
+			c.Add("units_answered_with_data_and_skip_false", int64(calls))
+		}
+	}
 	// replacer
 	var want []*astits.DemuxerData
 	serial := 0
